@@ -1056,6 +1056,7 @@ func main() {
 
 	// ---------- YAML ------------------------------------------------------------------------------
 	yamlOracle(ctx, orYaml, items)
+	yamlInputOracle(ctx)
 
 	ctx.RunStream(stString, strLines, strImpl)
 	stString.Exhaustive = false
